@@ -184,6 +184,75 @@ theorem vexR_rvm_formOk_dec (c : Model.X86.Ctx) (ctx : Spec.X86.Ctx) (rule : Rul
   exact vex_rvm_formOk_dec ctx rule p _ _ k0 k1 k2 f0 f1 f2 _ _ _ _ _ _ _ _ (by simpa [hm64] using hmode) hk0 hk1 hk2 R D hf0 hf1 hf2 hal
     (by rw [hm64]; exact hp) P h0 h1 h2
 
+/-- shape [reg, rm] with decorations: whatever `EmitVexEvexR` emits satisfies the monitor called with the same decorations -/
+theorem vexR_rm_formOk_dec (c : Model.X86.Ctx) (ctx : Spec.X86.Ctx) (rule : Rule) (opcode options reg rm aaa x' : BitVec 32)
+    (k0 k2 : RegKind) (f0 f2 : FormOp)
+    (hpe : c.preferEvex = false) (hk : c.extraId = aaa) (hm64 : ctx.mode64 = true) (hmode : (rule.modes &&& 2 != 0) = true)
+    (hr : reg < 32#32) (hm : rm < 32#32) (ha : aaa < 8#32) (hxop : opcode &&& 0x800#32 = 0#32)
+    (hopt : options &&& ~~~0x00EC0000#32 = 0#32) (hdec : aaa ≠ 0#32 ∨ options &&& 0x008C0000#32 ≠ 0#32)
+    (hx' : vexEvexROptions c (xR opcode 0#32 reg 0#32 rm aaa) options = .ok x')
+    (hk0 : PlainKind k0) (hk2 : PlainKind k2)
+    (R : VexRule rule 0) (D : DecorAllowed rule aaa.toNat (optZ options) (optER options) (optSAE options))
+    (hs : rule.space = 2) (A : RowAgree rule opcode true)
+    (hf0 : f0.role = .reg) (hf2 : f2.role = .rm)
+    (hal : alignOps rule.oszEff rule.ops [.reg k0 reg.toNat, .reg k2 rm.toNat] =
+           some [(f0, some (.reg k0 reg.toNat)), (f2, some (.reg k2 rm.toNat))]) :
+    ∃ bytes, emitVexEvexR c opcode options (reg + (0#32 <<< 7)) rm 0 0 = .ok bytes ∧
+      formOk ctx rule [.reg k0 reg.toNat, .reg k2 rm.toNat]
+        (decorOf aaa.toNat (optZ options) (optER options) (optSAE options) (optRC options)) bytes = true := by
+  rw [emitVexEvexR_dec c opcode options reg 0#32 rm aaa x' 0 0 hpe hk ha hopt hdec hx']
+  refine ⟨_, rfl, ?_⟩
+  obtain ⟨p, hp, P, h0, h1, h2, -⟩ := evexR_parsed_dec c rule opcode options reg 0#32 rm aaa x' [] hr (by decide) hm ha hxop hopt hx' R hs A
+  simp only [emitImmByteOrDword] at *
+  exact vex_rm_formOk_dec ctx rule p _ _ k0 k2 f0 f2 _ _ _ _ _ _ _ (by simpa [hm64] using hmode) hk0 hk2 R D hf0 hf2 hal
+    (by rw [hm64]; exact hp) P h0 h1 h2
+
+/-- shape [reg, vvvv, rm, imm8] with decorations: whatever `EmitVexEvexR` emits satisfies the monitor called with the same decorations -/
+theorem vexR_rvmi_formOk_dec (c : Model.X86.Ctx) (ctx : Spec.X86.Ctx) (rule : Rule) (opcode options reg vvvvv rm aaa x' : BitVec 32)
+    (k0 k1 k2 : RegKind) (f0 f1 f2 : FormOp)
+    (hpe : c.preferEvex = false) (hk : c.extraId = aaa) (hm64 : ctx.mode64 = true) (hmode : (rule.modes &&& 2 != 0) = true)
+    (hr : reg < 32#32) (hv : vvvvv < 32#32) (hm : rm < 32#32) (ha : aaa < 8#32) (hxop : opcode &&& 0x800#32 = 0#32)
+    (hopt : options &&& ~~~0x00EC0000#32 = 0#32) (hdec : aaa ≠ 0#32 ∨ options &&& 0x008C0000#32 ≠ 0#32)
+    (hx' : vexEvexROptions c (xR opcode 0#32 reg vvvvv rm aaa) options = .ok x')
+    (hk0 : PlainKind k0) (hk1 : PlainKind k1) (hk2 : PlainKind k2)
+    (R : VexRule rule 1) (f3 : FormOp) (imm : BitVec 64) (hf3 : f3.role = .imm) (hib : immBitsOf f3 = 8) (D : DecorAllowed rule aaa.toNat (optZ options) (optER options) (optSAE options))
+    (hs : rule.space = 2) (A : RowAgree rule opcode true)
+    (hf0 : f0.role = .reg) (hf1 : f1.role = .vvvv) (hf2 : f2.role = .rm)
+    (hal : alignOps rule.oszEff rule.ops [.reg k0 reg.toNat, .reg k1 vvvvv.toNat, .reg k2 rm.toNat, .imm imm] =
+           some [(f0, some (.reg k0 reg.toNat)), (f1, some (.reg k1 vvvvv.toNat)), (f2, some (.reg k2 rm.toNat)), (f3, some (.imm imm))]) :
+    ∃ bytes, emitVexEvexR c opcode options (reg + (vvvvv <<< 7)) rm imm 1 = .ok bytes ∧
+      formOk ctx rule [.reg k0 reg.toNat, .reg k1 vvvvv.toNat, .reg k2 rm.toNat, .imm imm]
+        (decorOf aaa.toNat (optZ options) (optER options) (optSAE options) (optRC options)) bytes = true := by
+  rw [emitVexEvexR_dec c opcode options reg vvvvv rm aaa x' imm 1 hpe hk ha hopt hdec hx']
+  refine ⟨_, rfl, ?_⟩
+  obtain ⟨p, hp, P, h0, h1, h2, hi⟩ := evexR_parsed_dec c rule opcode options reg vvvvv rm aaa x' [imm.truncate 8] hr hv hm ha hxop hopt hx' R hs A
+  simp only [emitImmByteOrDword, Nat.one_ne_zero, beq_self_eq_true, ↓reduceIte, show ((1:Nat) == 0) = false from rfl, Bool.false_eq_true] at *
+  exact vex_rvmi_formOk_dec ctx rule p _ _ k0 k1 k2 f0 f1 f2 _ _ _ _ _ _ _ _ (by simpa [hm64] using hmode) hk0 hk1 hk2 R f3 imm hf3 hib (by simp [hi]) D hf0 hf1 hf2 hal
+    (by rw [hm64]; exact hp) P h0 h1 h2
+
+/-- shape [reg, rm, imm8] with decorations: whatever `EmitVexEvexR` emits satisfies the monitor called with the same decorations -/
+theorem vexR_rmi_formOk_dec (c : Model.X86.Ctx) (ctx : Spec.X86.Ctx) (rule : Rule) (opcode options reg rm aaa x' : BitVec 32)
+    (k0 k2 : RegKind) (f0 f2 : FormOp)
+    (hpe : c.preferEvex = false) (hk : c.extraId = aaa) (hm64 : ctx.mode64 = true) (hmode : (rule.modes &&& 2 != 0) = true)
+    (hr : reg < 32#32) (hm : rm < 32#32) (ha : aaa < 8#32) (hxop : opcode &&& 0x800#32 = 0#32)
+    (hopt : options &&& ~~~0x00EC0000#32 = 0#32) (hdec : aaa ≠ 0#32 ∨ options &&& 0x008C0000#32 ≠ 0#32)
+    (hx' : vexEvexROptions c (xR opcode 0#32 reg 0#32 rm aaa) options = .ok x')
+    (hk0 : PlainKind k0) (hk2 : PlainKind k2)
+    (R : VexRule rule 1) (f3 : FormOp) (imm : BitVec 64) (hf3 : f3.role = .imm) (hib : immBitsOf f3 = 8) (D : DecorAllowed rule aaa.toNat (optZ options) (optER options) (optSAE options))
+    (hs : rule.space = 2) (A : RowAgree rule opcode true)
+    (hf0 : f0.role = .reg) (hf2 : f2.role = .rm)
+    (hal : alignOps rule.oszEff rule.ops [.reg k0 reg.toNat, .reg k2 rm.toNat, .imm imm] =
+           some [(f0, some (.reg k0 reg.toNat)), (f2, some (.reg k2 rm.toNat)), (f3, some (.imm imm))]) :
+    ∃ bytes, emitVexEvexR c opcode options (reg + (0#32 <<< 7)) rm imm 1 = .ok bytes ∧
+      formOk ctx rule [.reg k0 reg.toNat, .reg k2 rm.toNat, .imm imm]
+        (decorOf aaa.toNat (optZ options) (optER options) (optSAE options) (optRC options)) bytes = true := by
+  rw [emitVexEvexR_dec c opcode options reg 0#32 rm aaa x' imm 1 hpe hk ha hopt hdec hx']
+  refine ⟨_, rfl, ?_⟩
+  obtain ⟨p, hp, P, h0, h1, h2, hi⟩ := evexR_parsed_dec c rule opcode options reg 0#32 rm aaa x' [imm.truncate 8] hr (by decide) hm ha hxop hopt hx' R hs A
+  simp only [emitImmByteOrDword, Nat.one_ne_zero, beq_self_eq_true, ↓reduceIte, show ((1:Nat) == 0) = false from rfl, Bool.false_eq_true] at *
+  exact vex_rmi_formOk_dec ctx rule p _ _ k0 k2 f0 f2 _ _ _ _ _ _ _ (by simpa [hm64] using hmode) hk0 hk2 R f3 imm hf3 hib (by simp [hi]) D hf0 hf2 hal
+    (by rw [hm64]; exact hp) P h0 h1 h2
+
 /-- **front_cls_correct with AVX-512 decorations, classes VexRvm / VexRvm_Lx, EVEX forms.** For EVERY regenerated (row, EVEX form) pair,
 ALL register numbers 0..31, ALL mask registers k0..k7, ALL combinations of {z} / {er} + rounding mode / {sae} the encoder's option block
 accepts (`vexEvexROptions` succeeds) and the form allows (`DecorAllowed`): the bytes satisfy the monitor CALLED WITH THESE DECORATIONS -
@@ -213,6 +282,104 @@ theorem front_cls_correct_rvm_dec (e : Entry) (ch : List Entry) (hch : ch ∈ rv
       (by simpa using R.hmodes) hr hv hm ha hxop hopt hdec hx' p0 p1 p2 R D hsp A r0 r1 r2 (hal _ _ _)
     refine ⟨bytes, k0, k1, k2, hkinds, ?_, hf⟩
     rw [packRegVvvvv_eq reg vvvvv hr hv]
+    simpa [r32] using hb
+  · simp at hok
+
+/-- **front_cls_correct with AVX-512 decorations, classes VexRm / VexRm_Lx, EVEX forms** -/
+theorem front_cls_correct_rm_dec (e : Entry) (ch : List Entry) (hch : ch ∈ rmChunks) (he : e ∈ ch) (hsp : e.rule.space = 2)
+    (c : Model.X86.Ctx) (ctx : Spec.X86.Ctx) (reg rm aaa options x' : BitVec 32)
+    (hpe : c.preferEvex = false) (hk : c.extraId = aaa) (hm64 : ctx.mode64 = true)
+    (hr : reg < 32#32) (hm : rm < 32#32) (ha : aaa < 8#32)
+    (hopt : options &&& ~~~0x00EC0000#32 = 0#32) (hdec : aaa ≠ 0#32 ∨ options &&& 0x008C0000#32 ≠ 0#32)
+    (hx' : vexEvexROptions c (xR (finalOp e 0x6B) 0#32 reg 0#32 rm aaa) options = .ok x')
+    (D : DecorAllowed e.rule aaa.toNat (optZ options) (optER options) (optSAE options)) :
+    ∃ bytes k0 k2, e.kinds = [k0, k2] ∧
+      emitVexEvexR c (finalOp e 0x6B) options (r32 reg.toNat) (r32 rm.toNat) 0 0 = .ok bytes ∧
+      formOk ctx e.rule [.reg k0 reg.toNat, .reg k2 rm.toNat] (decorOf aaa.toNat (optZ options) (optER options) (optSAE options) (optRC options)) bytes = true := by
+  have hok := mem_chunks_ok rm_entries_ok e ch hch he
+  unfold entryOkRm at hok
+  split at hok
+  · rename_i f0 f2 k0 k2 hops hkinds
+    simp only [Bool.and_eq_true, Bool.or_eq_true, beq_iff_eq] at hok
+    obtain ⟨-, hR, hA, -, r0, r2, hS⟩ := hok
+    obtain ⟨R, -⟩ := vexRuleOk_spec _ _ hR
+    obtain ⟨A, hxop, hvx⟩ := rowAgreeOk_spec _ _ hA
+    obtain ⟨p0, p2, m0, m2⟩ := shapeOk2_spec _ _ _ _ _ hS
+    have hal : ∀ i0 i2, alignOps e.rule.oszEff e.rule.ops [.reg k0 i0, .reg k2 i2] = some [(f0, some (.reg k0 i0)), (f2, some (.reg k2 i2))] := by
+      intro i0 i2; rw [hops]; exact alignOps2 _ _ _ _ _ (m0 i0) (m2 i2)
+    have e0 : reg + ((0#32 : BitVec 32) <<< 7) = reg := by bv_decide
+    rw [hsp] at A
+    obtain ⟨bytes, hb, hf⟩ := vexR_rm_formOk_dec c ctx e.rule (finalOp e 0x6B) options reg rm aaa x' k0 k2 f0 f2 hpe hk hm64
+      (by simpa using R.hmodes) hr hm ha hxop hopt hdec hx' p0 p2 R D hsp A r0 r2 (hal _ _)
+    refine ⟨bytes, k0, k2, hkinds, ?_, hf⟩
+    rw [e0] at hb
+    simpa [r32] using hb
+  · simp at hok
+
+/-- **front_cls_correct with AVX-512 decorations, classes VexRvmi / VexRvmi_Lx, EVEX forms** -/
+theorem front_cls_correct_rvmi_dec (e : Entry) (ch : List Entry) (hch : ch ∈ rvmiChunks) (he : e ∈ ch) (hsp : e.rule.space = 2)
+    (c : Model.X86.Ctx) (ctx : Spec.X86.Ctx) (reg vvvvv rm aaa options x' : BitVec 32) (imm : BitVec 64)
+    (hpe : c.preferEvex = false) (hk : c.extraId = aaa) (hm64 : ctx.mode64 = true)
+    (himm : ∀ f3, e.rule.ops[3]? = some f3 → formOpMatches e.rule.oszEff f3 (.imm imm) = true)
+    (hr : reg < 32#32) (hv : vvvvv < 32#32) (hm : rm < 32#32) (ha : aaa < 8#32)
+    (hopt : options &&& ~~~0x00EC0000#32 = 0#32) (hdec : aaa ≠ 0#32 ∨ options &&& 0x008C0000#32 ≠ 0#32)
+    (hx' : vexEvexROptions c (xR (finalOp e 0x7C) 0#32 reg vvvvv rm aaa) options = .ok x')
+    (D : DecorAllowed e.rule aaa.toNat (optZ options) (optER options) (optSAE options)) :
+    ∃ bytes k0 k1 k2, e.kinds = [k0, k1, k2] ∧
+      emitVexEvexR c (finalOp e 0x7C) options (packRegVvvvv reg.toNat vvvvv.toNat) (r32 rm.toNat) imm 1 = .ok bytes ∧
+      formOk ctx e.rule [.reg k0 reg.toNat, .reg k1 vvvvv.toNat, .reg k2 rm.toNat, .imm imm] (decorOf aaa.toNat (optZ options) (optER options) (optSAE options) (optRC options)) bytes = true := by
+  have hok := mem_chunks_ok rvmi_entries_ok e ch hch he
+  unfold entryOkRvmi at hok
+  split at hok
+  · rename_i f0 f1 f2 f3 k0 k1 k2 hops hkinds
+    simp only [Bool.and_eq_true, Bool.or_eq_true, beq_iff_eq] at hok
+    obtain ⟨-, hR, hA, -, r0, r1, r2, r3, hib, hS⟩ := hok
+    obtain ⟨R, -⟩ := vexRuleOk_spec _ _ hR
+    obtain ⟨A, hxop, hvx⟩ := rowAgreeOk_spec _ _ hA
+    obtain ⟨p0, p1, p2, m0, m1, m2⟩ := shapeOk3_specB _ _ _ _ _ _ _ hS
+    have m3 : formOpMatches e.rule.oszEff f3 (.imm imm) = true := himm f3 (by rw [hops]; rfl)
+    have hal : ∀ i0 i1 i2, alignOps e.rule.oszEff e.rule.ops [.reg k0 i0, .reg k1 i1, .reg k2 i2, .imm imm] =
+        some [(f0, some (.reg k0 i0)), (f1, some (.reg k1 i1)), (f2, some (.reg k2 i2)), (f3, some (.imm imm))] := by
+      intro i0 i1 i2; rw [hops]; exact alignOps4 _ _ _ _ _ _ _ _ _ (m0 i0) (m1 i1) (m2 i2) m3
+    rw [hsp] at A
+    obtain ⟨bytes, hb, hf⟩ := vexR_rvmi_formOk_dec c ctx e.rule (finalOp e 0x7C) options reg vvvvv rm aaa x' k0 k1 k2 f0 f1 f2 hpe hk hm64
+      (by simpa using R.hmodes) hr hv hm ha hxop hopt hdec hx' p0 p1 p2 R f3 imm r3 hib D hsp A r0 r1 r2 (hal _ _ _)
+    refine ⟨bytes, k0, k1, k2, hkinds, ?_, hf⟩
+    rw [packRegVvvvv_eq reg vvvvv hr hv]
+    simpa [r32] using hb
+  · simp at hok
+
+/-- **front_cls_correct with AVX-512 decorations, classes VexRmi / VexRmi_Lx, EVEX forms** -/
+theorem front_cls_correct_rmi_dec (e : Entry) (ch : List Entry) (hch : ch ∈ rmiChunks) (he : e ∈ ch) (hsp : e.rule.space = 2)
+    (c : Model.X86.Ctx) (ctx : Spec.X86.Ctx) (reg rm aaa options x' : BitVec 32) (imm : BitVec 64)
+    (hpe : c.preferEvex = false) (hk : c.extraId = aaa) (hm64 : ctx.mode64 = true)
+    (himm : ∀ f3, e.rule.ops[2]? = some f3 → formOpMatches e.rule.oszEff f3 (.imm imm) = true)
+    (hr : reg < 32#32) (hm : rm < 32#32) (ha : aaa < 8#32)
+    (hopt : options &&& ~~~0x00EC0000#32 = 0#32) (hdec : aaa ≠ 0#32 ∨ options &&& 0x008C0000#32 ≠ 0#32)
+    (hx' : vexEvexROptions c (xR (finalOp e 0x71) 0#32 reg 0#32 rm aaa) options = .ok x')
+    (D : DecorAllowed e.rule aaa.toNat (optZ options) (optER options) (optSAE options)) :
+    ∃ bytes k0 k2, e.kinds = [k0, k2] ∧
+      emitVexEvexR c (finalOp e 0x71) options (r32 reg.toNat) (r32 rm.toNat) imm 1 = .ok bytes ∧
+      formOk ctx e.rule [.reg k0 reg.toNat, .reg k2 rm.toNat, .imm imm] (decorOf aaa.toNat (optZ options) (optER options) (optSAE options) (optRC options)) bytes = true := by
+  have hok := mem_chunks_ok rmi_entries_ok e ch hch he
+  unfold entryOkRmi at hok
+  split at hok
+  · rename_i f0 f2 f3 k0 k2 hops hkinds
+    simp only [Bool.and_eq_true, Bool.or_eq_true, beq_iff_eq] at hok
+    obtain ⟨-, hR, hA, -, r0, r2, r3, hib, hS⟩ := hok
+    obtain ⟨R, -⟩ := vexRuleOk_spec _ _ hR
+    obtain ⟨A, hxop, hvx⟩ := rowAgreeOk_spec _ _ hA
+    obtain ⟨p0, p2, m0, m2⟩ := shapeOk2_spec _ _ _ _ _ hS
+    have m3 : formOpMatches e.rule.oszEff f3 (.imm imm) = true := himm f3 (by rw [hops]; rfl)
+    have hal : ∀ i0 i2, alignOps e.rule.oszEff e.rule.ops [.reg k0 i0, .reg k2 i2, .imm imm] =
+        some [(f0, some (.reg k0 i0)), (f2, some (.reg k2 i2)), (f3, some (.imm imm))] := by
+      intro i0 i2; rw [hops]; exact alignOps3i _ _ _ _ _ _ _ (m0 i0) (m2 i2) m3
+    have e0 : reg + ((0#32 : BitVec 32) <<< 7) = reg := by bv_decide
+    rw [hsp] at A
+    obtain ⟨bytes, hb, hf⟩ := vexR_rmi_formOk_dec c ctx e.rule (finalOp e 0x71) options reg rm aaa x' k0 k2 f0 f2 hpe hk hm64
+      (by simpa using R.hmodes) hr hm ha hxop hopt hdec hx' p0 p2 R f3 imm r3 hib D hsp A r0 r2 (hal _ _)
+    refine ⟨bytes, k0, k2, hkinds, ?_, hf⟩
+    rw [e0] at hb
     simpa [r32] using hb
   · simp at hok
 
